@@ -120,6 +120,8 @@ class SimFS(object):
         self.O_EXCL, self.O_CREAT, self.O_RDWR = _os.O_EXCL, _os.O_CREAT, _os.O_RDWR
         self.fsyncs = 0
         self.renames = 0
+        self.clock = None          # optional callable: simulated time of the running process (set by the harness)
+        self.fsync_times = []      # (number of deaths so far, simulated time, path) per completed fsync
 
     def op(self, name, *args):
         """Every file-system call is a potential death point."""
@@ -213,6 +215,7 @@ class SimFS(object):
             ino = self.files[path]
             ino.synced = len(ino.data)
         self.fsync_log.append((self.nops - 1, path))
+        self.fsync_times.append((getattr(self, "deaths", 0), self.clock() if self.clock else None, path))
         self.fsyncs += 1
 
     def close(self, fd):
